@@ -24,12 +24,16 @@ TStart == /\ IsEv("start")
           /\ Ev.running = running'
           /\ ThrOk(Ev.thr)
           /\ running' => (Ev.seq = glob'.seqOn /\ Ev.discard = glob'.discard)
+TStartSerial == /\ IsEv("startserial")
+                /\ StartSerial(Ev.dev, Ev.cfg, Ev.ret)
+                /\ Ev.running = running'
+                /\ ThrOk(Ev.thr)
 TStop == /\ IsEv("stop")
          /\ Stop
          /\ Ev.running = running'
          /\ ThrOk(Ev.thr)
 TCap == IsEv("cap") /\ Capacity(Ev.c)
-TNext == TProc \/ TStart \/ TStop \/ TCap
+TNext == TProc \/ TStart \/ TStartSerial \/ TStop \/ TCap
 TSpec == LInit /\ l = 1 /\ [][TNext]_tlv
 TraceAccepted == TLCGet("stats").diameter - 1 = Len(Tr)
 NotAccepted == l <= Len(Tr)
